@@ -170,7 +170,7 @@ impl<A: AApi> ASut<A> {
             "open", "ext", "ins", "rem", "take", "get", "gmq", "has", "upd", "len", "full", "empty", "view", "rget", "rhas", "rlen", "rfull", "rempty", "rview", "fill",
         ];
         let n = NAMES.iter().find(|n| **n == name)?;
-        Some(Op { name: n, args: it.filter_map(|a| a.parse().ok()).collect() })
+        Some(Op { name: n, args: it.filter_map(|a| a.parse().ok()).collect(), blob: None })
     }
     fn prefix_max() -> usize {
         if A::PW >= 8 { usize::MAX } else { (1usize << (8 * A::PW)) - 1 }
